@@ -153,6 +153,14 @@ eq = ComparisonOp.make(operator.eq)
 ge = ComparisonOp.make(operator.ge)
 gt = ComparisonOp.make(operator.gt)
 invert = UnaryOp.make(operator.invert)
+
+
+@invert.register(bool)
+def _invert_bool(x):
+    # operator.invert(True) is the integer -2; boolean arrays negate logically
+    return not x
+
+
 le = ComparisonOp.make(operator.le)
 lt = ComparisonOp.make(operator.lt)
 ne = ComparisonOp.make(operator.ne)
